@@ -125,7 +125,9 @@ Built build_base(const std::string& text) {
 }
 
 // restarted run: deck with RESTART -> EclipseState; RstState from the file the deck names; Schedule(..., &rst)
-Built build_restarted(const std::string& text, bool with_schedule) {
+// sched_from_rst == false: the Schedule is built from the (full) deck alone, only the dynamic state comes from the file
+// (what upstream's test_Restart does, and flow's mode with restart_offset() == 0)
+Built build_restarted(const std::string& text, bool with_schedule, bool sched_from_rst = true) {
     Guard g;
     Built b;
     b.deck = the_parser().parseString(text, g.ctx, g.errors);
@@ -140,7 +142,7 @@ Built build_restarted(const std::string& text, bool with_schedule) {
         Opm::RestartIO::RstState::load(std::move(view), b.es->runspec(), the_parser(), &b.es->getInputGrid()));
     if (with_schedule) {
         b.sched = std::make_unique<Opm::Schedule>(b.deck, *b.es, g.ctx, g.errors, std::make_shared<Opm::Python>(),
-                                                  false, false, true, std::nullopt, b.rst.get());
+                                                  false, false, true, std::nullopt, sched_from_rst ? b.rst.get() : nullptr);
         b.smcfg = std::make_unique<Opm::SummaryConfig>(b.deck, *b.sched, b.es->fieldProps(), b.es->aquifer(), g.ctx, g.errors);
     }
     return b;
@@ -593,7 +595,7 @@ PROBE_CMD(rst_roundtrip) {
     std::string phase = "build";
     try {
         auto& out = sub;
-    auto r = build_restarted(jstr(req, "rst_text"), true);
+    auto r = build_restarted(jstr(req, "rst_text"), true, jstr(req, "load_sched", "rst") != "deck");
     Opm::SummaryState st2(Opm::TimeService::from_time_t(r.sched->getStartTime()), r.es->runspec().udqParams().undefinedValue());
     Opm::Action::State as2;
     const auto keys = read_keys(jget(req, "load_keys"));
